@@ -155,6 +155,29 @@ func c11Run(r *Run) {
 				if se, ok := ast.Unparen(c.Fun).(*ast.SelectorExpr); ok && se.Sel.Name == "CreateContext" {
 					created = true
 				}
+				// ctx := f.callContext(): a helper of the package every return of which is a CreateContext call
+				if !created {
+					if cal := calleeFunc(info, c); cal != nil && cal.Pkg() == hp.Types {
+						if hd := declOfFn[cal]; hd != nil && hd.Body != nil {
+							rets, creates := 0, 0
+							ast.Inspect(hd.Body, func(k ast.Node) bool {
+								if _, isLit := k.(*ast.FuncLit); isLit {
+									return false
+								}
+								if rs, ok := k.(*ast.ReturnStmt); ok && len(rs.Results) == 1 {
+									rets++
+									if rc, ok := ast.Unparen(rs.Results[0]).(*ast.CallExpr); ok {
+										if rse, ok := ast.Unparen(rc.Fun).(*ast.SelectorExpr); ok && rse.Sel.Name == "CreateContext" {
+											creates++
+										}
+									}
+								}
+								return true
+							})
+							created = rets > 0 && rets == creates
+						}
+					}
+				}
 			}
 			if created {
 				fresh = true
